@@ -77,7 +77,8 @@ def items(tier, seed):
     fam = family(tier)
     if tier == "thorough":
         fam += K.random_recipes(seed, 150, 2)
-    return [("twin", 0)] + [("rs", ch) for ch in K.chunks(fam, 2)]
+    its = [("twin", 0)] + [("rs", ch) for ch in K.chunks(fam, 2)]
+    return its + K.touched_items(its, 3 if tier == "quick" else 1, ("rs",))
 
 
 def observe(recipe, order, val):
@@ -167,6 +168,8 @@ def check_recipe(recipe, planted=False):
 
 def check(item):
     kind, payload = item
+    if kind == "touched":
+        return K.run_touched(check, payload)
     if kind == "rs":
         out = K.safe_items(check_recipe, payload, show)
         out.append(dict(status="conformance", what="paths: " + ",".join(sorted(PATHS_SEEN)), points=0))
@@ -186,6 +189,9 @@ def check(item):
 
 
 def replay(payload):
+    r_ = K.replay_touched(replay, payload)
+    if r_ is not None:
+        return r_
     recipe = K.dec(payload["recipe"])
     order = payload["order"]
     name = payload["obs"]
